@@ -116,6 +116,10 @@ def validname(ctx):
             oks = v.ok_nodes(bb)
             if oks and site_node not in pg.reach([pg.entry()], set(oks)):
                 return c
+        # any other spelling of a whole-chain validation that R-ALLVALID accepts (index loop over 0..len, find_map ..)
+        eff_, full_ = _full_validations(ctx, f)
+        if full_ and site_node[0] == "t" and site_node[1] in eff_:
+            return full_[0]["call"]
         return None
 
     def walk(f, call, arg_idx, chain, validated_below, depth):
@@ -552,19 +556,14 @@ def oneorder(pid):
 _NARROWING = re.compile(r"\b(skip|take|step_by|filter|skip_while|take_while|nth|split_at|split_first|split_last|chunks|windows)\b|Index<I>::index\(|get\(")
 
 
-def allvalid(pid):
-    """R-ALLVALID: the compound creation `create_storage_all` refuses a path with an invalid component before it creates
-    anything only if *every* component of the normalised chain went through validate_name before the first storage is
-    created: a whole-collection iteration of the chain (a `for` over `names.iter()`, or `iter().try_for_each / all`
-    with a closure) whose every round validates its item and whose refusal is propagated, ahead of every effectful
-    call.  An index range counts only in the plain form `0..names.len()` with `names[i]`."""
-    def run(ctx):
-        from cfg import block_dominators, natural_loops
-        res = RuleResult("R-ALLVALID(%s)" % pid, "create_storage_all validates every component of the path (a whole-collection iteration of the name chain, refusal propagated) before the first call that can change the file")
-        f = ctx.fx.fns.get("CompoundFile::<F>::create_storage_all_with_path")
-        if f is None:
-            res.gone.append("CompoundFile::<F>::create_storage_all_with_path")
-            return res
+def _full_validations(ctx, f):
+    """(effectful call blocks of f, the whole-collection validations of the normalised name chain that precede all of
+    them).  Shared by R-ALLVALID and R-VALIDNAME."""
+    from cfg import block_dominators, natural_loops
+    cache = ctx.__dict__.setdefault("_fullval", {})
+    if f.path in cache:
+        return cache[f.path]
+    if True:
         pr = Prov(f)
         v = view(ctx, f)
         dom = block_dominators(f)
@@ -600,7 +599,7 @@ def allvalid(pid):
                     continue
                 h, body, back = min(mine, key=lambda x: len(x[1]))
                 if all((h in dom.get(e, ())) and e not in body for e in effect_bbs) and all(bb in dom.get(t, ()) for (t, _h) in back):
-                    full.append({"validation_line": cl.line, "form": "loop over the whole chain", "item": a[:70]})
+                    full.append({"call": cl, "validation_line": cl.line, "form": "loop over the whole chain", "item": a[:70]})
             elif cl.closures and args:
                 recv = pr.operand(args[0])
                 if not whole(recv) or "Range" in recv:
@@ -611,9 +610,41 @@ def allvalid(pid):
                     for gbb, gcl in gv.calls.items():
                         if gcl.name == VALIDATE and gcl.term["args"] and re.match(r"^(deref\()*param:\w+\)*$", gp.operand(gcl.term["args"][0])):
                             short = cl.name.split("::")[-1]
-                            if short in ("try_for_each", "all", "try_fold") and any(short + "(" in p for p in propagated) or short == "all":
-                                if all(bb in dom.get(e, ()) and e != bb for e in effect_bbs):
-                                    full.append({"validation_line": gcl.line, "form": "closure over the whole chain via " + short, "receiver": recv[:70]})
+                            if not all(bb in dom.get(e, ()) and e != bb for e in effect_bbs):
+                                continue
+                            if short in ("try_for_each", "try_fold") and any(short + "(" in p for p in propagated) or short == "all":
+                                full.append({"call": cl, "validation_line": gcl.line, "form": "closure over the whole chain via " + short, "receiver": recv[:70]})
+                            elif short in ("find_map", "map", "filter_map", "any", "find", "position"):
+                                # `if let Some(e) = names.iter().find_map(|n| validate_name(n).err()) { return Err(e) }`,
+                                # `.map(validate_name).collect::<io::Result<Vec<_>>>()?`: what the adaptor yields must
+                                # be able to end the function with an error before anything changes the file
+                                errs = set(v.all_err_nodes())
+                                for b3, blk3 in enumerate(f.blocks):
+                                    for i3, st3 in enumerate(blk3["stmts"]):
+                                        if st3["s"] == "assign" and st3["place"]["local"] == 0 and not st3["place"]["proj"] and st3["rv"]["r"] == "aggregate" and st3["rv"].get("variant") == "Err":
+                                            errs.add(("s", b3, i3))
+                                before = v.pg.reach_after(("t", bb), avoid={("t", e) for e in effect_bbs})
+                                if errs & before:
+                                    full.append({"call": cl, "validation_line": gcl.line, "form": "closure over the whole chain via %s, refusal taken before any effect" % short, "receiver": recv[:70]})
+    cache[f.path] = (effect_bbs, full)
+    return cache[f.path]
+
+
+def allvalid(pid):
+    """R-ALLVALID: the compound creation `create_storage_all` refuses a path with an invalid component before it creates
+    anything only if *every* component of the normalised chain went through validate_name before the first storage is
+    created: a whole-collection iteration of the chain (a `for` over `names.iter()`, or `iter().try_for_each / all`
+    with a closure) whose every round validates its item and whose refusal is propagated, ahead of every effectful
+    call.  An index range counts only in the plain form `0..names.len()` with `names[i]`."""
+    def run(ctx):
+        from cfg import block_dominators, natural_loops
+        res = RuleResult("R-ALLVALID(%s)" % pid, "create_storage_all validates every component of the path (a whole-collection iteration of the name chain, refusal propagated) before the first call that can change the file")
+        f = ctx.fx.fns.get("CompoundFile::<F>::create_storage_all_with_path")
+        if f is None:
+            res.gone.append("CompoundFile::<F>::create_storage_all_with_path")
+            return res
+        effect_bbs, full = _full_validations(ctx, f)
+        full = [{k_: v_ for k_, v_ in x.items() if k_ != "call"} for x in full]
         n_eff = len(effect_bbs)
         if n_eff == 0:
             res.ok({"function": f.path, "effects": 0})
